@@ -63,7 +63,17 @@ theorem classify_onBase : ∀ (l : List (Path × Option Info)) (pl : RollbackPla
   | (p, some i) :: rest, pl => by
     unfold classify
     split
-    · exact classify_onBase rest _
+    · apply Logs.bind (by
+        unfold ensureRoot
+        apply Logs.bind (Logs.attempt (lexists_logs cfg .base p ((primCall_onSide cfg .base _).mono (fun _ h => OnSide.toOr h)))); intro r
+        cases r with
+        | error e => exact Logs.pure _ _
+        | ok o => cases o with
+          | some _ => exact Logs.pure _ _
+          | none =>
+            apply Logs.bind (Logs.attempt (primUnit_logs cfg .base _ ((primCall_onSide cfg .base _).mono (fun _ h => OnSide.toOr h)))); intro r2
+            cases r2 <;> exact Logs.pure _ _); intro f
+      exact classify_onBase rest _
     · cases i.kind <;> exact classify_onBase rest _
 
 /-- the restore half of Rollback never issues a mutating call on the backup filesystem -/
